@@ -38,6 +38,8 @@ pub struct Env {
     pub fns: Vec<FnInfo>,
     pub uses: HashMap<String, HashMap<String, String>>,   // module -> alias -> path
     pub macros: HashMap<String, ItemMacro>,
+    pub trait_defaults: HashMap<String, Vec<TraitItemFn>>,
+    pub impls: Vec<(String, Vec<Ty>, Ty, HashMap<String, Ty>, String, String, Vec<String>)>,
 }
 
 pub struct Walker<'a> { pub cfg: &'a Config, pub env: Env, pub root: PathBuf, pub renames: HashMap<(String, String), String>, pub cur_mod: std::cell::RefCell<String> }
@@ -56,7 +58,8 @@ impl<'a> Walker<'a> {
                 if segs.len() == 2 && segs[0] == "Self" { if let Some(t) = assoc.get(&segs[1]) { return t.clone(); } return Unknown(format!("Self::{}", segs[1])); }
                 match name.as_str() {
                     "f32" => F32, "f64" => F64, "bool" => Bool, "str" => Str, "__m128" => M128, "__m128i" => M128i,
-                    "f32x4" | "u32x4" | "i32x4" | "mask32x4" | "f64x2" | "f64x4" | "Simd" | "Mask" => Simd(name.clone()),
+                    "f32x4" => M128,
+                    "u32x4" | "i32x4" | "mask32x4" | "f64x2" | "f64x4" | "Simd" | "Mask" => Simd(name.clone()),
                     "Self" => self_ty.cloned().unwrap_or(Unknown("Self".into())),
                     "Option" => Opt(Box::new(self.generic_arg(last, self_ty, assoc))),
                     "Result" => Res(Box::new(self.generic_arg(last, self_ty, assoc))),
@@ -132,6 +135,7 @@ impl<'a> Walker<'a> {
                     let mut assoc = HashMap::new();
                     for ii in &im.items { if let ImplItem::Type(t) = ii { let ty = self.conv_ty(&t.ty, Some(&self_ty), &assoc); assoc.insert(t.ident.to_string(), ty); } }
                     if let Some((tn, _)) = &trait_ { if tn == "Deref" { if let Some(t) = assoc.get("Target") { self.env.deref.insert(self_ty.clone(), t.clone()); } } }
+                    if let Some((tn, ta)) = &trait_ { let names: Vec<String> = im.items.iter().filter_map(|ii| if let ImplItem::Fn(f) = ii { Some(f.sig.ident.to_string()) } else { None }).collect(); self.env.impls.push((tn.clone(), ta.clone(), self_ty.clone(), assoc.clone(), fname.clone(), module.to_string(), names)); }
                     let by_ref = matches!(&*im.self_ty, Type::Reference(_)) || im.trait_.as_ref().map(|(_, p, _)| { if let PathArguments::AngleBracketed(ab) = &p.segments.last().unwrap().arguments { ab.args.iter().any(|a| matches!(a, GenericArgument::Type(Type::Reference(_)))) } else { false } }).unwrap_or(false);
                     for ii in &im.items {
                         match ii {
@@ -150,6 +154,7 @@ impl<'a> Walker<'a> {
                         }
                     }
                 }
+                Item::Trait(t) => { if !self.cfg.enabled(&t.attrs) { continue; } for ti in &t.items { if let TraitItem::Fn(f) = ti { if f.default.is_some() { self.env.trait_defaults.entry(t.ident.to_string()).or_default().push(f.clone()); } } } }
                 Item::Macro(m) => {
                     let name = path_last(&m.mac.path);
                     if name == "macro_rules" { if let Some(id) = &m.ident { if self.cfg.enabled(&m.attrs) { self.env.macros.insert(id.to_string(), m.clone()); } } }
@@ -158,6 +163,16 @@ impl<'a> Walker<'a> {
                 _ => {}
             }
         }
+    }
+    /// trait methods with a default body become methods of every implementing type that does not override them
+    pub fn add_trait_defaults(&mut self) {
+        let impls = self.env.impls.clone();
+        for (tn, ta, self_ty, assoc, file, module, names) in impls {
+            let Some(defs) = self.env.trait_defaults.get(&tn).cloned() else { continue };
+            for d in defs { let name = d.sig.ident.to_string(); if names.contains(&name) { continue; }
+                *self.cur_mod.borrow_mut() = module.clone();
+                let mut info = self.fn_info(&d.sig, d.default.clone(), Some(&self_ty), Some((tn.clone(), ta.clone())), &assoc, &file, &module); info.is_pub = true;
+                let idx = self.env.fns.len(); self.env.trait_impls.entry((tn.clone(), self_ty.clone(), name)).or_default().push(idx); self.env.fns.push(info); } }
     }
     fn record_use(&mut self, t: &UseTree, prefix: String, module: &str) {
         match t {
